@@ -340,6 +340,16 @@ func (p *printer) expr(e Expr) string {
 	case Cond:
 		return "(" + p.expr(e.C) + " ? " + p.expr(e.A) + " : " + p.expr(e.B) + ")"
 	case Force:
+		switch x := e.X.(type) {
+		case Invoke:
+			if x.Opt {
+				return "(" + p.expr(e.X) + ")!"
+			}
+		case Member:
+			if x.Opt {
+				return "(" + p.expr(e.X) + ")!"
+			}
+		}
 		return p.expr(e.X) + "!"
 	case Cast:
 		return "(" + p.expr(e.X) + " " + e.Op + " " + p.ty(e.T) + ")"
